@@ -179,7 +179,8 @@ Definition spec_filter (kids : list snode) (events : list content) (e : cmp_expr
                 | _, _ => None
                 end) (Some []) events.
 
-(** writer side: the source without the leaves whose intended conditions fail on the target *)
+(** writer side: the source without the leaves and containers whose intended conditions fail on the
+    target (a container's own conditions are read in the target's container, an absent one being empty) *)
 Fixpoint prune_src (it : intent) (pth : list nat) (kids : list snode) (src : content) (i : nat)
          (allk : list snode) (alltgt : content) {struct kids} : xres content :=
   match kids, src with
@@ -189,7 +190,10 @@ Fixpoint prune_src (it : intent) (pth : list nat) (kids : list snode) (src : con
         | _, None => XOk None
         | SLeaf _ _ _ _, Some v =>
             xbind (all_hold allk alltgt allk alltgt (conds_at it (pth ++ [i]))) (fun ok => XOk (if ok then Some v else None))
-        | _, Some v => match conds_at it (pth ++ [i]) with [] => XOk (Some v) | _ => XUnsup end
+        | SCont _ kk, Some v =>
+            let own := match nth i alltgt None with Some (DCont cc) => cc | _ => empty_content kk end in
+            xbind (all_hold allk alltgt kk own (conds_at it (pth ++ [i]))) (fun ok => XOk (if ok then Some v else None))
+        | SList _ _ _, Some v => XOk (Some v)
         end in
       xcons me (prune_src it pth kids' src' (S i) allk alltgt)
   | _, _ => XOk []
@@ -198,14 +202,28 @@ Fixpoint prune_src (it : intent) (pth : list nat) (kids : list snode) (src : con
 Definition intent_depth1 (it : intent) : bool :=
   forallb (fun e => Nat.eqb (length (fst (fst e))) 1) it.
 
+Definition intent_on_list (it : intent) (kids : list snode) : bool :=
+  existsb (fun e => match fst (fst e) with
+                    | [i] => match nth i kids (SCont (mkMeta [] [] true [] None) []) with SList _ _ _ => true | _ => false end
+                    | _ => false
+                    end) it.
+
 Definition spec_edit (kids : list snode) (src tgt : content) (it : intent) (final : content) : xres content :=
-  if negb (intent_depth1 it) then XUnsup else
+  if negb (intent_depth1 it) || intent_on_list it kids then XUnsup else
   xbind (prune_src it [] kids src O kids tgt) (fun p1 =>
   xbind (prune_src it [] kids src O kids final) (fun p2 =>
     (* "current data" is unambiguous only if the conditions read the same before and after *)
     if content_eqb p1 p2 then
       match edit_content false kids p1 tgt Upsert with Ok c' => XOk c' | Err _ => XUnsup end
     else XUnsup)).
+
+(** an edit never fails because of a condition: it skips what is hidden *)
+Definition spec_edit_err (kids : list snode) (src tgt : content) (it : intent) : bool :=
+  if negb (intent_depth1 it) then true else
+  match prune_src it [] kids src O kids tgt with
+  | XOk _ => match edit_content false kids src tgt Upsert with Err _ => true | Ok _ => false end
+  | _ => true
+  end.
 
 Definition classify (c : case) : verdict :=
   match c with
@@ -254,7 +272,7 @@ Definition classify (c : case) : verdict :=
                                  | XOk c' => content_eqb c' final
                                  | _ => true
                                  end
-                  | OErr => match edit_content false kids src tgt Upsert with Err _ => true | Ok _ => false end
+                  | OErr => spec_edit_err kids src tgt it
                   | OPanic => false
                   end in
       classify_gen (xres_eqb (wupsert kids src tgt) o) spec
